@@ -194,8 +194,8 @@ func (p *idPool) apply(rng *vk.Rand, m protoreflect.Message, depth int) {
 
 func servers(r *vk.Run) {
 	table := serverTable()
-	nSeq := r.Pick(6, 200)
-	steps := r.Pick(120, 200)
+	nSeq := r.Pick(4, 300)
+	steps := r.Pick(100, 200)
 	caseNo := 0
 	for _, ent := range table {
 		for q := 0; q < nSeq; q++ {
@@ -321,6 +321,9 @@ func serverSequence(r *vk.Run, ent serverEntry, rng *vk.Rand, steps int, caseNo 
 			outcome = "error"
 		}
 		r.Distinct(ent.name + "." + m.name + ":" + outcome)
+		if captured != nil {
+			r.Distinct(ent.name + "." + m.name + ":" + vk.JSON(captured)) // distinct requests
+		}
 		if pm, ok := resp.(proto.Message); ok && err == nil {
 			observe("response:"+m.name, pm)
 		}
